@@ -34,3 +34,10 @@ VARIANTS = [
     v("c10-twin-cmp", "            if x[kk] < x[k]:\n                _s2 += 1", "            if x[k] > x[kk]:\n                _s2 += 1", expect="silent"),
     v("c10-twin-var", "        return (n * (n - 1) * (2 * n + 5)) / 18\n", "        return n * (n - 1) * (2 * n + 5) / 18.0\n", expect="silent"),
 ]
+
+VARIANTS += [
+    v("c10-dispatch-truthy", 'nodata = self._obj.attrs.get("nodata", None)\n        if nodata is None:\n            warn("Calculating trend',
+      'nodata = self._obj.attrs.get("nodata", None)\n        if not nodata:\n            warn("Calculating trend', file=A, names="mktrend", note="nodata = 0 goes to the kernel without nodata handling"),
+    v("c10-twin-getnodata", 'nodata = self._obj.attrs.get("nodata", None)\n        if nodata is None:\n            warn("Calculating trend',
+      'nodata = self._obj.attrs.get("nodata")\n        if nodata is None:\n            warn("Calculating trend', file=A, expect="silent"),
+]
